@@ -169,22 +169,56 @@ def r3(ctx):
         base, kw = comp[ci.name]
         if compare_box(ctx, f'{ci.name}.bounding_box', box, _oracle(base, **kw), f.loc()):
             ctx.ok(f'{ci.name}.bounding_box', 'equals the outer component box')
-    _, f, box = _bbox(ctx, 'CompoundPixelRegion')
-    want = App('bitor', (App('attr:bounding_box', (Obj('PixelRegion', {}, 'self.region1'),)),
-                         App('attr:bounding_box', (Obj('PixelRegion', {}, 'self.region2'),))))
-    if same(box, want) or same(box, App('bitor', tuple(reversed(want.args)))):
-        ctx.ok('CompoundPixelRegion.bounding_box', 'region1.bounding_box | region2.bounding_box')
-    else:
+    # compound: the box is the smallest box containing both operand boxes, whatever they are (also when one of them has
+    # no pixels: a line or a point exactly on a pixel edge has such a box, and the compound must still reach it) —
+    # evaluated with the operands' boxes given, on every order type of their limits
+    from ..ot import ev as ot_ev
+    from .c19 import _box, _pairs, _val
+    cci = m.cls('CompoundPixelRegion')
+    f = method_or_fail(ctx, cci, 'bounding_box')
+    ba, bb_ = _box(ctx, 'a'), _box(ctx, 'b')
+    boxes = {'self.region1': ba, 'self.region2': bb_}
+    ev = Evaluator(m, hooks={'regions.core.core:PixelRegion.bounding_box': lambda e, a, k: boxes[a[0].path]})
+    t = ev.call(f, [ev.symbolic_instance(cci)], {})
+    need_known(ctx, t, 'CompoundPixelRegion.bounding_box')
+    xs, ys, X, Y = _pairs(ba, bb_)
+    nbad, first, n = 0, None, 0
+    own_state = None
+    for ax in X:
+        if own_state:
+            break
+        for ay in Y:
+            asg = {**ax, **ay}
+            n += 1
+            try:
+                got = _val(ot_ev(t, asg))
+            except (ValueError, KeyError, TypeError) as exc:
+                from ..vg import walk_terms
+                reads_self = [x for x in walk_terms(t) if isinstance(x, App) and any(
+                    isinstance(a_, Obj) and a_.path == 'self' for a_ in x.args)]
+                if reads_self:
+                    own_state = reads_self[0]
+                    break
+                raise AnalysisError('C04.R3', 'CompoundPixelRegion.bounding_box', f'box not evaluable on an order type: {exc!r}')
+            want = ('box', min(asg[xs[0]], asg[xs[2]]), max(asg[xs[1]], asg[xs[3]]),
+                    min(asg[ys[0]], asg[ys[2]]), max(asg[ys[1]], asg[ys[3]]))
+            if got != want:
+                nbad += 1
+                first = first or (asg, got, want)
+    if own_state is not None:
+        # the box is not a function of the two operand boxes: it reads other state of the compound itself
         ctx.bad('CompoundPixelRegion.bounding_box', 'not-union',
-                f'compound box is {show(box, 200)}, not the union of the operand boxes', f.loc())
-    # `|` is union
-    bb = m.cls('RegionBoundingBox')
-    o = method_or_fail(ctx, bb, '__or__')
-    import ast
-    if ast.unparse(o.node.body[-1]).replace(' ', '') == 'returnself.union(other)':
-        ctx.ok('RegionBoundingBox.__or__', 'is union')
+                f'compound box is {show(t, 200)}: it depends on state of the compound itself '
+                f'({show(own_state, 80)}), not only on the boxes its operands have now', f.loc())
+    elif nbad:
+        asg, got, want = first
+        ctx.bad('CompoundPixelRegion.bounding_box', 'not-union',
+                f'compound box is not the smallest box containing both operand boxes on {nbad} of {n} order types of their '
+                f'limits, e.g. operands {[(int(asg[v]) ) for v in xs]} x {[(int(asg[v])) for v in ys]} '
+                f'(xmin, xmax of a, b; ymin, ymax of a, b): got {got}, want {want} — an operand whose own box has a zero-length '
+                'side (a line or point on a pixel edge) is not enclosed', f.loc())
     else:
-        ctx.bad('RegionBoundingBox.__or__', 'not-union', '`|` on boxes is not union()', o.loc())
+        ctx.ok('CompoundPixelRegion.bounding_box', f'{n} order types of the operand boxes: smallest box containing both')
     for sub, base in (('TextPixelRegion', 'PointPixelRegion'), ('RegularPolygonPixelRegion', 'PolygonPixelRegion')):
         f1 = m.method(m.cls(sub), 'bounding_box')
         f2 = m.method(m.cls(base), 'bounding_box')
@@ -273,7 +307,7 @@ def r6(ctx):
 RULES = [
     RuleDef('R1', 'float extents are the support functions of each shape', r1, 6),
     RuleDef('R2', 'from_float = floor(min+1/2), ceil(max+1/2); extent = pixel edges', r2, 2),
-    RuleDef('R3', 'annulus box = outer box; compound box = union; inheritance', r3, 7),
+    RuleDef('R3', 'annulus box = outer box; compound box = smallest box containing both operand boxes (order types); inheritance', r3, 6),
     RuleDef('R4', 'mask carries self.bounding_box', r4, 4),
     RuleDef('R5', 'rectangle corners use the same rotation frame', r5, 2, tier='thorough'),
     RuleDef('R6', 'no remembered box: bounding_box / to_mask recompute from current parameters and operands', r6, 12),
